@@ -429,8 +429,9 @@ impl<H: Helper> State<'_, '_, H> {
         anchor: Anchor,
         n: RepeatCount,
     ) -> Result<()> {
+        let mut moved = false;
         if let Anchor::After = anchor {
-            self.line.move_forward(1);
+            moved = self.line.move_forward(1);
         }
         if self.line.yank(text, n, &mut self.changes).is_some() {
             if !input_state.is_emacs_mode() {
@@ -438,6 +439,10 @@ impl<H: Helper> State<'_, '_, H> {
             }
             self.refresh_line()
         } else {
+            if moved {
+                // nothing was pasted: the cursor must not move (nobody repaints)
+                self.line.move_backward(1);
+            }
             Ok(())
         }
     }
